@@ -14,7 +14,7 @@ OPS = {
 
 # oracle ops whose expected answer is a constant: the request carries the intended result, or the
 # law is evaluated on the real code alone; anything but these answers is an oracle failure
-CONST_OK = {"numlaws", "cmplaws", "containslaws", "keyorder", "tostrcheck", "jpexpect", "kpexpect", "jexpect", "jreject", "fsexpect",
+CONST_OK = {"numlaws", "cmplaws", "containslaws", "keyorder", "tostrcheck", "jpexpect", "kpexpect", "jexpect", "jreject", "fsexpect", "fsreject", "kpreject", "bigpayload", "tjtext",
             "jproundtrip", "kproundtrip", "modes", "tj", "serdecheck", "sniffbig", "chaincheck", "deep"}
 OK_ANSWERS = ("ok", "not-accepted", "not-applicable", "skip", "bad-path")
 
@@ -91,8 +91,8 @@ PROPS = {
     },
     "C02": {
         "panic_is_violation": True,
-        "proved": 'the parser model (parser.rs + util.rs as written, every index / slice / unwrap an explicit panic outcome) is total for every byte string (no panic, fuel adequate: accepts or rejects with an error); EVERY RFC 8259 document is accepted with the value it denotes — inclusion theorem against an independent strict RFC 8259 reader for every byte string (C02_rfc8259_accepted: white space, all escapes incl. surrogate pairs, full number grammar with exact u64 / i64 and correctly rounded doubles, nesting, duplicate keys: last wins); what the crate rejects RFC 8259 rejects; integers exact; completeness on compact renderings',
-        "missing": "the converse bound on the relaxations (that NOTHING beyond the listed relaxations is accepted) is decided by correspondence on corruptions / token soups only; float rounding is exact big-Nat arithmetic in the model (F64.ofDecimal), validated against the real parser and std's parse on 1..19-digit decimals",
+        "proved": 'the parser model (parser.rs + util.rs as written, every index / slice / unwrap an explicit panic outcome) is total for every byte string; THE ACCEPTED LANGUAGE IS EXACTLY THE DOCUMENTED ONE: parseValue t = ok v iff Relaxed.parse t = some v, where Relaxed.parse is a specification of RFC 8259 plus exactly the listed relaxations written independently of the parser (C02_exactly_the_documented_language, C02_everything_else_rejected); every RFC 8259 document accepted with the value it denotes against an independent strict reader (C02_rfc8259_accepted); integers exact in u64 / i64, every other number the correctly rounded double, last duplicate key wins',
+        "missing": "float rounding is exact big-Nat arithmetic (F64.ofDecimal) shared by model and specification, validated against the real parser and std's parse on 1..19-digit decimals; three undocumented quirks of the unpaired-surrogate relaxation are part of the specification and listed in DESIGN 13.6",
         "assumptions": [],
     },
     "C03": {
@@ -133,8 +133,8 @@ PROPS = {
     },
     "C11": {
         "panic_is_violation": True,
-        "proved": "for every text t sniffed as text with parse_value t = Ok v (v inside the field widths, fewer than 2^24 top-level members) and every other argument: each public function of functions.rs, modelled WITH its sniffing and its text branch (T.*), returns on t exactly what it returns on encodeSpec v = parse_value(t).to_vec(): generic theorems for the parse-encode-run shape with one and two document arguments in all four text/binary combinations (array_insert, object_insert, array_distinct/intersection/except/overlap, object_delete/pick, to_serde_json), and individual theorems through the C05/C06/C04 refinements for the functions with a tree implementation of the text branch (array_length, type_of, get_by_index/name/keypath, object_keys, as_null/bool/number/str, exists_all_keys, strip_nulls, delete_by_name, traverse_check_string, convert_to_comparable, path_exists, get_by_path*, compare in its three text cases, parse_lazy_value, contains and concat in all three text/binary combinations (through from_slice + C10_text_fallback + the C12 / C06 refinements), delete_by_index on any text)",
-        "missing": "delete_by_keypath text branch and the to_* / is_* / object_each / array_values wrappers (not modelled as whole functions) are decided by correspondence + the tj oracle only; D21: first byte of a valid array with >= 2^24 elements is 0x81.., which is_jsonb takes for text (C11_sniff_false_huge, known finding)",
+        "proved": "for every text t sniffed as text with parse_value t = Ok v (v inside the field widths, fewer than 2^24 top-level members) and every other argument: each public function of functions.rs, modelled WITH its sniffing and its text branch (T.*), returns on t exactly what it returns on encodeSpec v = parse_value(t).to_vec(): generic theorems for the parse-encode-run shape with one and two document arguments in all four text/binary combinations (array_insert, object_insert, array_distinct/intersection/except/overlap, object_delete/pick, to_serde_json), and individual theorems through the C05/C06/C04 refinements for the functions with a tree implementation of the text branch (array_length, type_of, get_by_index/name/keypath, object_keys, as_null/bool/number/str, exists_all_keys, strip_nulls, delete_by_name, traverse_check_string, convert_to_comparable, path_exists, get_by_path*, compare in its three text cases, parse_lazy_value, contains and concat in all three text/binary combinations (through from_slice + C10_text_fallback + the C12 / C06 refinements), delete_by_index on any text; and the remaining wrappers, so that every is_jsonb sniffing site of functions.rs is covered: path_match, get_by_path*, exists_any_keys, object_each, array_values, is_array / is_object / is_null / is_boolean / is_number / is_string, as_i64 / as_u64 / as_f64, is_i64 / is_u64 / is_f64, to_bool / to_i64 / to_u64 / to_f64 / to_str, to_serde_json_object, delete_by_keypath, to_string / to_pretty_string (text is echoed; both renderings denote the same document))",
+        "missing": 'f64-valued results are stated up to NaN canonicalisation (no text denotes a NaN); D21: first byte of a valid array with >= 2^24 elements is 0x81.., which is_jsonb takes for text (C11_sniff_false_huge, known finding)',
         "assumptions": ["text accepted by parse_value, not starting with a space, value inside the field widths"],
     },
     "C19": {
